@@ -220,3 +220,9 @@ package importer
 //@   ghostset @call:importer.(*TypeList).Add added
 //@   loop 0 step [every-schema-contributes] ghost("added")
 //@   assert @call:importer.(*writer).Write [all-types-written] arg2.types == i.types.types
+
+// Names are made Sysl-safe against the grammar's own rule for the start of a name (SyslLexer.g4, `Name`): any number of
+// %XX escapes — exactly two hex digits each — followed by a letter or underscore; every other name gets a leading '_'.
+//@ func getSyslSafeName
+//@   maypanic
+//@   assert @call:regexp.MustCompile [name-start-is-the-rule-of-the-grammar] arg0 == "^(%[0-9a-fA-F][0-9a-fA-F])*[a-zA-Z_]"
